@@ -340,12 +340,7 @@ class Mut:
         files[lib + ".bitproto"] = [["proto", None, lib]]
         new = ["import", None, None, lib + ".bitproto"]
         body.insert(rng.randint(0, len(body)), new)
-        if kind == "msg":
-            return dict(code=22, file=None, node=None, rule="B9 import inside a message", crash=True)
-        # the property expects the diagnostic at the import statement; the compiler cites the
-        # imported file, line 0 (finding import-in-enum-location): kept out of the main stream
-        return dict(code=26, file=key, node=new, rule="B9 import inside an enum", crash=True,
-                    known="import-in-enum-location")
+        return dict(code=22 if kind == "msg" else 26, file=key, node=new, rule=f"B9 import inside a{' message' if kind == 'msg' else 'n enum'}")
 
     # ---- 10 options ----
     def option(self, files):
@@ -514,6 +509,19 @@ class Mut:
         items.insert(rng.randint(pos + 1, len(items)), new)
         return dict(code=code, file=key, node=new, rule=f"B11 constant reference ({how})")
 
+    def div_zero(self, files):
+        """division by zero in a constant expression (directly or through a constant)"""
+        rng = self.rng
+        key = rng.choice(list(files))
+        items = files[key]
+        zn = self.z("ZZ")
+        pos = rng.randint(0, len(items))
+        items.insert(pos, ["const", None, zn, ["expr", ["sub", ["int", 4], ["int", 4]]]])
+        d = rng.choice([["int", 0], ["ref", [zn]], ["mul", ["ref", [zn]], ["int", 7]]])
+        new = ["const", None, self.z("ZK"), ["expr", rng.choice([["div", ["int", 9], d], ["add", ["int", 1], ["div", ["int", 2], d]]])]]
+        items.insert(rng.randint(pos + 1, len(items)), new)
+        return dict(code=33, file=key, node=new, rule="division by zero in a constant expression")
+
     # ---- 12 imports ----
     def import_cycle(self, files):
         rng = self.rng
@@ -606,7 +614,7 @@ class Mut:
     ALL = ["width", "array_cap", "field_number", "dup_number", "enum_overflow", "enum_dup_value", "enum_base",
            "dup_name", "dup_import_name", "max_bytes", "max_bytes_ok", "msg_too_big", "alias_named", "in_message",
            "in_enum", "import_in_scope", "option", "undefined_type", "later_type", "inner_not_visible",
-           "extend_path", "importer_not_visible",
+           "extend_path", "importer_not_visible", "div_zero",
            "const_as_type", "type_as_const", "import_cycle", "import_twice", "import_missing", "no_proto",
            "traditional", "grammar_misplaced"]
 
